@@ -40,7 +40,15 @@ def run_demo():
         rc, o = sh(f"cargo test --offline -p {crate} --test {f[:-3]} 2>&1 | grep -E 'test result|panicked|FAILED|failed|error' | head -20")
         res[f] = o.strip()
         os.remove(f"{wt}/{tdir}/{f}")
+    # demonstrations made of module directories: every main.aelys below the demo dir
+    for root, dirs, files in os.walk(demo):
+        if root != demo and "main.aelys" in files:
+            rc, o = sh(f"cd {root} && timeout 60 {wt}/target/debug/aelys-cli run ./main.aelys 2>&1 | head -40")
+            res[os.path.relpath(root, demo) + "/main.aelys"] = o.strip()
     for f in sorted(os.listdir(demo)):
+        if f.endswith(".repl"):
+            rc, o = sh(f"timeout 60 target/debug/aelys-cli repl < {demo}/{f} 2>&1 | head -60")
+            res[f] = o.strip()
         if f.endswith(".aelys"):
             for lvl in (0, 1, 2, 3):
                 rc, o = sh(f"timeout 60 target/debug/aelys-cli run -O{lvl} {demo}/{f} 2>&1 | head -40")
